@@ -23,7 +23,7 @@ pvars == <<node, up, stor, dur, app, cfg, pre, evt, gh>>
 CallEvents == {"Tick", "Deliver", "Propose", "ProposeBatch", "ProposeConf", "ReadIndex",
                "Transfer", "Campaign", "Ping", "Unreachable", "ReportSnap", "RequestSnap",
                "Ready", "Advance", "AdvanceAppend", "AdvanceAsync", "Notify", "Apply",
-               "SetKnob"}
+               "SetKnob", "Bogus"}
 ReadyEvents == {"Ready", "Advance", "AdvanceAppend"}
 ProposeEvents == {"Propose", "ProposeBatch", "ProposeConf"}
 
@@ -594,7 +594,9 @@ Converged ==
                   /\ app[j].sm = app[ld].sm
                   /\ evt.a.probe => app[j].hasProbe
 
-C10_Converged == evt.ev = "StableEnd" => Converged
+(* at the end of the fault-free suffix: one leader, every running member caught up, and the entry proposed
+   during the suffix was accepted, committed and applied everywhere *)
+C10_Converged == evt.ev = "StableEnd" => (Converged /\ evt.a.probe)
 
 -----------------------------------------------------------------------------
 
